@@ -7,6 +7,8 @@
 (*   Conforms          post = Apply(pre, act)            (C15: effect + frame)  *)
 (*   RefsStayResolved  name-changing steps keep AllRefsResolve      (C05)       *)
 (*   FilterExact       allowed_objects keeps exactly Reach(allowed) (C05)       *)
+(*   SelfRefsStay      name-changing steps keep every object's self reference on  *)
+(*                     the object's own package and name            (C05)       *)
 (* Report mode prints one FAIL line per violating record; Strict stops.         *)
 EXTENDS Transforms, TLC, Json
 
@@ -38,7 +40,12 @@ RefsStayR(r) == (NameChanging(r.act) /\ Defined(r.pre, r.act) /\ ~r.err /\ AllRe
 FilterExactR(r) == (r.act.a = "allowed_objects" /\ ~r.err) =>
                       {<<o.selfpkg, o.name>> : o \in AllObjects(r.post)} = {<<o.selfpkg, o.name>> : o \in AllObjects(Expected(r).S)}
 
+\* an object's self reference is a reference too: after a name-changing step it still names the object's own package and name
+\* (generators and later passes locate the object through it)
+SelfRefsStayR(r) == (NameChanging(r.act) /\ Defined(r.pre, r.act) /\ ~r.err /\ SelfRefsOK(r.pre)) => SelfRefsOK(r.post)
+
 Violated(r) == (IF ConformsR(r) THEN {} ELSE {"Conforms"})
+          \cup (IF SelfRefsStayR(r) THEN {} ELSE {"SelfRefsStay"})
           \cup (IF RefsStayR(r) THEN {} ELSE {"RefsStayResolved"})
           \cup (IF FilterExactR(r) THEN {} ELSE {"FilterExact"})
 DanglingKinds(r) == IF r.err THEN {} ELSE {d.kind : d \in Dangling(r.post)}
